@@ -37,6 +37,7 @@ type throwEvent struct {
 	awaitingActions []chan IAction
 	once            sync.Once
 	running         atomic.Bool
+	stopped         chan struct{} // closed when the event loop has ended
 	satisfier       *logic.ThrowEventSatisfier
 }
 
@@ -48,6 +49,7 @@ func newThrowEvent(wr *wiring, element *schema.ThrowEvent, idGenerator id.IGener
 		mch:             make(chan imessage, len(wr.incoming)*2+1),
 		activated:       atomic.Bool{},
 		awaitingActions: make([]chan IAction, 0),
+		stopped:         make(chan struct{}),
 		satisfier:       logic.NewThrowEventSatisfier(element, wr.eventDefinitionInstanceBuilder),
 	}
 
@@ -60,6 +62,7 @@ func newThrowEvent(wr *wiring, element *schema.ThrowEvent, idGenerator id.IGener
 
 func (evt *throwEvent) run(ctx context.Context, sender tracing.ISenderHandle) {
 	defer sender.Done()
+	defer close(evt.stopped)
 
 	for {
 		select {
@@ -96,7 +99,12 @@ func (evt *throwEvent) ConsumeEvent(ev event.IEvent) (result event.ConsumptionRe
 		result = event.Consumed
 		return
 	}
-	evt.mch <- eventMessage{event: ev}
+	select {
+	case evt.mch <- eventMessage{event: ev}:
+	case <-evt.stopped:
+		// the event loop has ended with its context: nothing reads the inbox
+		// any more and the caller must not block on it
+	}
 	result = event.Consumed
 	return
 }
